@@ -33,7 +33,7 @@ def gen_cases(tier):
     pals = [sd % 3] if tier == "quick" else [0, 1, 2]
     full, mid, deep = Trees(*SIG_FULL), Trees(*SIG_MID), Trees(*SIG_DEEP)
     if tier == "quick":
-        plan = [("full", full, [1, 2], [(1, 0.0, 25.0), (1, SRS, -40.0), (-1, SRS, 25.0), (-1, 0.0, -40.0)]),
+        plan = [("full", full, [1, 2], [(1, 0.0, 25.0), (1, SRS, -40.0), (-1, SRS, 25.0), (-1, 0.0, 0.0)]),
                 ("full", full, [3], [(1, SRS, -40.0)]),
                 ("deep", deep, [4, 5], [(1, SRS, 85.0)])]
     else:
